@@ -36,7 +36,9 @@ pub fn header_config(src: &str) -> Vec<(String, String)> {
             if let Some(kv) = rest.strip_prefix("rustfmt-") {
                 if let Some((k, val)) = kv.split_once(':') {
                     let (k, val) = (k.trim().to_string(), val.trim().to_string());
-                    if !val.is_empty() && !val.contains(' ') && Config::is_valid_key_val(&k, &val) {
+                    // not layout options / not expressible as a plain `--config k=v`
+                    const DROP: &[&str] = &["file_lines", "emit_mode", "verbose", "color", "ignore", "required_version", "make_backup", "print_misformatted_file_names", "width_heuristics"];
+                    if !val.is_empty() && !val.contains(' ') && !val.contains(',') && !DROP.contains(&k.as_str()) && Config::is_valid_key_val(&k, &val) {
                         v.push((k, val));
                     }
                 }
